@@ -402,6 +402,12 @@ def run_shard(spec, seed):
                 return f
         return None
 
-    hypothesis_search(_case_strategy(), body, seed, spec["n"], res, batch=300)
-    reset_pickle_bindings()
+    try:
+        hypothesis_search(_case_strategy(), body, seed, spec["n"], res, batch=300)
+    finally:
+        reset_pickle_bindings()
+        try:
+            os.remove(os.path.join(env.SCRATCH, f"c07-{os.getpid()}.bin"))
+        except OSError:
+            pass
     return res
